@@ -389,8 +389,10 @@ impl Fp {
     /// Returns whether or not this element is strictly lexicographically
     /// larger than its negation.
     pub fn lexicographically_largest(&self) -> Choice {
-        const HALF_MODULUS: [u64; 4] = [
-            0xfffffffffffffff6,
+        // (p - 1) / 2 + 1: an element is larger than its negation iff it is
+        // at least this value.
+        const HALF_MODULUS_PLUS_ONE: [u64; 4] = [
+            0xfffffffffffffff7,
             0xffffffffffffffff,
             0xffffffffffffffff,
             0x3fffffffffffffff,
@@ -398,7 +400,7 @@ impl Fp {
         let tmp = self.from_mont();
         let borrow = tmp
             .iter()
-            .zip(HALF_MODULUS.iter())
+            .zip(HALF_MODULUS_PLUS_ONE.iter())
             .fold(0, |borrow, (t, m)| sbb(*t, *m, borrow).1);
         !Choice::from((borrow as u8) & 1)
     }
